@@ -25,4 +25,6 @@ def run(rep, fb, tier):
     lints.rule_bit_accumulator_reset(rep, fb)
     from ..rules import lints as _lx
     _lx.rule_whole_token(rep, fb)
+    from ..rules import lints as _lv
+    _lv.rule_call_roles(rep, fb)
     rep.units = fb.units
